@@ -1621,9 +1621,12 @@ impl Compiler {
                 self.compile_load_non_local(result_register, id);
                 result
             } else {
+                // The value isn't needed, but the load is still performed so that an unknown id
+                // gets reported.
                 let register = self.push_register()?;
                 self.compile_load_non_local(register, id);
-                CompileNodeOutput::with_temporary(register)
+                self.pop_register()?;
+                result
             }
         };
 
